@@ -264,7 +264,7 @@ SPECS['C18'] = {
     'budget': {'quick': 170, 'thorough': 1500},
 }
 
-WRAPS = ['-Wl,--wrap=tls_prf', '-Wl,--wrap=hkdf_extract', '-Wl,--wrap=hkdf_expand', '-Wl,--wrap=sm3_pbkdf2', '-lcrypto', '-lpthread', '-ldl', '-lm']
+WRAPS = ['-Wl,--wrap=tls_prf', '-Wl,--wrap=hkdf_extract', '-Wl,--wrap=hkdf_expand', '-Wl,--wrap=sm3_pbkdf2', '-Wl,--wrap=sm4_gcm_encrypt', '-lcrypto', '-lpthread', '-ldl', '-lm']
 SPECS['C19'] = {
     'level': 'fault_enumeration',
     'technique': 'exhaustive enumeration of handshake executions (honest, every credential defect, per-record tampering, every entropy-draw failure on both roles) and a list of secret-handling API sequences incl. their failure modes; fd 1 and fd 2 captured per execution and searched for every secret of that execution',
